@@ -56,7 +56,14 @@ partial def evalExpr : SExp → Ev
       match go args [] true with
       | .error e => e
       | .ok (vals, ex) =>
-        if byName && !known then .unsup
+        -- astronomically large exponents / shift counts are not run through the model (the harness never
+        -- generates them on purpose; they only arise below a sibling that raises first in Python)
+        let huge := vals.length == 2 && ["**", "^", "<<", ">>"].contains name &&
+          (match (vals[1]? : Option PyNum) with
+           | some (.int i) => i.natAbs > 4096
+           | some (.flt q) => q.num.natAbs > 4096 * q.den
+           | none => false)
+        if (byName && !known) || huge then .unsup
         else match ArithTable.evalKey name vals with
           | none => .unsup
           | some (.ok v) =>
